@@ -143,8 +143,8 @@ def vsop_pos (jde : Num) (vsop_l vsop_b vsop_r : VsopTable) : PyRes (Num × Num 
 
 /-! ### `geometric_vsop_pos` (Coordinates.py:2508): conversion to the FK5 system -/
 
-/-- the `if tofk5:` block: returns the corrected `(lon, lat)` -/
-def fk5_correction (jde lon lat : Num) : Num × Num :=
+/-- the two corrections `(delta_lon, delta_beta)` (as Angles, in degrees) computed in the `if tofk5:` block -/
+def fk5_deltas (jde lon lat : Num) : Num × Num :=
   -- t = (epoch.jde() - 2451545.0) / 36525.0
   let t := (jde - 2451545.0) / 36525.0
   -- lambda_p = lon - t * (1.397 + 0.00031 * t)
@@ -161,8 +161,12 @@ def fk5_correction (jde lon lat : Num) : Num × Num :=
   let delta_beta := 0.03916 * (pcos (angRad lambda_p) - psin (angRad lambda_p))
   -- delta_beta = Angle(0, 0, delta_beta)
   let delta_beta := angDms 0 0 delta_beta
-  -- lon += delta_lon; lat += delta_beta
-  (angAdd lon delta_lon, angAdd lat delta_beta)
+  (delta_lon, delta_beta)
+
+/-- the `if tofk5:` block: `lon += delta_lon; lat += delta_beta` -/
+def fk5_correction (jde lon lat : Num) : Num × Num :=
+  let d := fk5_deltas jde lon lat
+  (angAdd lon d.1, angAdd lat d.2)
 
 def geometric_vsop_pos (jde : Num) (vsop_l vsop_b vsop_r : VsopTable) (tofk5 : Bool) : PyRes (Num × Num × Num) :=
   match vsop_pos jde vsop_l vsop_b vsop_r with
